@@ -86,7 +86,9 @@ func Parse(data []byte) *Archive {
 // NeedsQuote reports whether the given data needs to
 // be quoted before it's included as a txtar file.
 func NeedsQuote(data []byte) bool {
-	_, name, _ := findFileMarker(data)
+	// Format terminates the data with a newline, so decide on that form:
+	// a final "-- x --\r" only becomes a marker line once terminated.
+	_, name, _ := findFileMarker(fixNL(data))
 	return name != ""
 }
 
